@@ -20,6 +20,18 @@ import docparse
 COUNTERS = ('ErrorCount', 'WarnCount')
 
 
+def counting_helpers(P):
+    """static functions of asmerr.c that only WrErrorString() calls: counting done there is counting in the emitter"""
+    rev = P.callers()
+    out = set()
+    for f in P.all_funcs():
+        if f.unit.name == 'asmerr.c' and f.static and f.name != 'WrErrorString':
+            cs = rev.get(f, set())
+            if cs and all(c.name == 'WrErrorString' for c in cs):
+                out.add(f)
+    return out
+
+
 def rule_r1(chk, facts, P):
     chk.rule('C02-R1', 'ErrorCount/WarnCount are incremented only inside the diagnostic emitter WrErrorString(), are '
              'set to 0 only by functions that run at the start of a pass, and are otherwise modified only by the '
@@ -34,7 +46,7 @@ def rule_r1(chk, facts, P):
         for (f, how, ln, node, b, i) in ws:
             key = '%s:%s:%s%s' % (f.unit.name, f.name, c, node[1] if len(node) > 1 else '')
             if is_incdec(node) and node[1] in ('x++', '++x'):
-                ok = f.name == 'WrErrorString'
+                ok = f.name == 'WrErrorString' or f in counting_helpers(P)
                 chk.ob('C02-R1', key, ok, f.loc(ln), 'increment in the emitter' if ok else
                        '%s is incremented outside the diagnostic emitter: the summary no longer counts emitted diagnostics' % c)
             elif is_assign(node) and node[1] == '=' and const_val(node[3]) == 0:
@@ -56,12 +68,32 @@ def rule_r2(chk, facts, P):
              'choice is made by the Warning flag, and the flag is only ever changed from warning to error (under '
              '-Werror)', min_instances=3)
     f = facts.func('asmerr.c', 'WrErrorString')
+    helpers = counting_helpers(P)
 
-    def inc(ex):
+    def dinc(ex):
         for m in walk_own(ex):
             if is_incdec(m) and strip(m[2])[0] == 'g' and strip(m[2])[1] in COUNTERS:
                 return True
         return False
+
+    def helper_counts(h):
+        # every path through the helper increments a counter, selected by its first parameter
+        if not h.params or not h.must_pass(h.entry, -1, dinc)[0]:
+            return False
+        par = ('p', h.params[0]['name'])
+        for b, i, ln, ex in h.elems():
+            if dinc(ex):
+                tgt = [strip(m[2])[1] for m in walk_own(ex) if is_incdec(m)][0]
+                pol = 'nz' if tgt == 'WarnCount' else 'z'
+                if not h.guarded(b, i, lambda l, pol=pol: edge_has_atom(l, lambda a: a[0] == pol and a[1] == par))[0]:
+                    return False
+        return True
+    via = {h.name for h in helpers if helper_counts(h)}
+
+    def inc(ex):
+        if dinc(ex):
+            return True
+        return any(m[0] == 'call' and callee_name(m) in via and m[2] and strip(m[2][0]) == ('p', 'Warning') for m in walk_own(ex))
     ok, w = f.must_pass(f.entry, -1, inc)
     chk.ob('C02-R2', 'asmerr.c:WrErrorString:counts-every-diagnostic', ok, f.loc(),
            'every path increments a counter' if ok else 'a diagnostic can be emitted without being counted: ' + ' '.join(w[-6:]))
@@ -76,10 +108,15 @@ def rule_r2(chk, facts, P):
         for (b2, i2, l2) in incs:
             if b2 in seen:
                 twice = True
-    chk.ob('C02-R2', 'asmerr.c:WrErrorString:counts-once', not twice and len(incs) == 2, f.loc(),
+    chk.ob('C02-R2', 'asmerr.c:WrErrorString:counts-once', not twice and (len(incs) == 2 or (len(incs) == 1 and not any(dinc(ex) for b, i, ln, ex in f.elems()))), f.loc(),
            'one increment per diagnostic' if not twice else 'a diagnostic can be counted twice')
     # the branch is on Warning
     for (b, i, ln) in incs:
+        if not dinc(f.blocks[b]['elems'][i][1]):
+            for tgt in ('WarnCount', 'ErrorCount'):
+                chk.ob('C02-R2', 'asmerr.c:WrErrorString:%s-iff-%s' % (tgt, 'warning' if tgt == 'WarnCount' else 'error'), True, f.loc(ln),
+                       'selected by the Warning flag inside the counting helper')
+            continue
         tgt = [strip(m[2])[1] for m in walk_own(f.blocks[b]['elems'][i][1]) if is_incdec(m)][0]
         want_pol = 'nz' if tgt == 'WarnCount' else 'z'
         g, w = f.guarded(b, i, lambda l: edge_has_atom(l, lambda a: a[0] == want_pol and a[1] == ('p', 'Warning')))
@@ -301,8 +338,13 @@ def rule_r7(chk, facts, P):
         for b, i, ln, m in f.nodes():
             if (is_incdec(m) or (is_assign(m) and m[1] == '+=')) and strip(m[2]) == ('g', 'WarnCount'):
                 n += 1
-                ok, w = f.guarded(b, i, lambda l: l is not None and l[0] in ('T', 'F') and
-                                  mentions(l[1], lambda x: var_is(x, {'TreatWarningsAsErrors'})))
+                twae = lambda l: l is not None and l[0] in ('T', 'F') and mentions(l[1], lambda x: var_is(x, {'TreatWarningsAsErrors'}))
+                ok, w = f.guarded(b, i, twae)
+                if not ok and f in counting_helpers(P):
+                    # counted in a helper of the emitter: the test lies on every path to the helper call
+                    em = [g for g in P.all_funcs() if g.name == 'WrErrorString'][0]
+                    sites = list(em.calls(f.name))
+                    ok = bool(sites) and all(em.guarded(b2, i2, twae)[0] for b2, i2, l2, c2 in sites)
                 chk.ob('C02-R7', '%s:%s:WarnCount++' % (f.unit.name, f.name), ok, f.loc(ln),
                        'promotion tested in the emitter' if ok else
                        'a warning is counted as a warning on a path that never looked at TreatWarningsAsErrors (%s): callers '
